@@ -5,6 +5,8 @@ import (
 	"path/filepath"
 	"strings"
 
+	"github.com/goreleaser/nfpm/v2"
+
 	"verif/harness/internal/report"
 	"verif/harness/internal/wire"
 )
@@ -100,7 +102,7 @@ func runC08(c *Ctx) error {
 	if err != nil {
 		return err
 	}
-	fam := c.Rep.Family("typing", "(a) exhaustive matrix: every entry type x every packager tag (\"\" + 5 formats) as a single entry next to one plain file, built for all 5 formats; (b) random content lists mixing all entry types, config globs expanding to several files; conffiles member / rpm FILEFLAGS+FILEMODES vs cpio / archlinux backup lines decoded and compared with model and spec; non-trivial = more than one payload member")
+	fam := c.Rep.Family("typing", "(a) exhaustive matrix: every entry type x every packager tag (\"\" + 5 formats) as a single entry next to one plain file, built for all 5 formats; (c) every entry type through the strict YAML parser with and without `expand: true` and ${VAR} references in src/dst; (b) random content lists mixing all entry types, config globs expanding to several files; conffiles member / rpm FILEFLAGS+FILEMODES vs cpio / archlinux backup lines decoded and compared with model and spec; non-trivial = more than one payload member")
 	types := []string{"", "file", "config", "config|noreplace", "config|missingok", "dir", "symlink", "tree", "ghost", "doc", "licence", "license", "readme"}
 	tags := append([]string{""}, Formats...)
 	for _, ty := range types {
@@ -117,6 +119,76 @@ func runC08(c *Ctx) error {
 			s := &PkgSpec{Raw: []wire.Content{{Src: filepath.Join(tree.Root, "bin/tool"), Dst: "/usr/bin/plain"}, e}, Umask: 0o022, MTime: 1700000000,
 				Describe: map[string]any{"matrix": ty + "/" + tg}}
 			for _, f := range Formats {
+				typingCase(c, fam, s, f)
+			}
+		}
+	}
+	// (c) the same entry types through the route a user's nfpm.yaml takes: parsed with the strict parser,
+	// with and without `expand: true` and ${VAR} references in src/dst (expansion must not touch the type)
+	for _, ty := range []string{"", "file", "config", "config|noreplace", "config|missingok", "ghost", "doc", "licence", "license", "readme", "symlink", "dir"} {
+		for _, expand := range []bool{false, true} {
+			src, dst := filepath.Join(tree.Root, "etc/app.conf"), "/etc/app/entry"
+			if expand {
+				src, dst = "${VERIF_SRC}/etc/app.conf", "/etc/${VERIF_NAME}/entry"
+			}
+			var e strings.Builder
+			switch ty {
+			case "symlink":
+				fmt.Fprintf(&e, "- src: /usr/bin/plain\n  dst: %s\n  type: symlink\n", dst)
+			case "dir":
+				fmt.Fprintf(&e, "- dst: %s\n  type: dir\n", dst)
+			case "ghost":
+				fmt.Fprintf(&e, "- dst: %s\n  type: ghost\n", dst)
+			case "":
+				fmt.Fprintf(&e, "- src: %s\n  dst: %s\n", src, dst)
+			default:
+				fmt.Fprintf(&e, "- src: %s\n  dst: %s\n  type: %q\n", src, dst, ty)
+			}
+			if expand {
+				e.WriteString("  expand: true\n")
+			}
+			glob := filepath.Join(tree.Root, "etc/**/*.conf")
+			if expand {
+				glob = "${VERIF_SRC}/etc/**/*.conf"
+			}
+			doc := "name: verifpkg\narch: amd64\nplatform: linux\nversion: 1.2.3\nmaintainer: Verif <verif@example.com>\ndescription: verification package\n" +
+				"umask: 0o022\nmtime: 2023-11-14T22:13:20Z\nrpm:\n  buildhost: buildhost.example\ncontents:\n" +
+				"- src: " + filepath.Join(tree.Root, "bin/tool") + "\n  dst: /usr/bin/plain\n" + e.String() +
+				"- src: " + glob + "\n  dst: /etc/many\n  type: \"config|noreplace\"\n"
+			if expand {
+				doc += "  expand: true\n"
+			}
+			s := &PkgSpec{FromYAML: doc, Env: map[string]string{"VERIF_SRC": tree.Root, "VERIF_NAME": "app"}, Umask: 0o022, MTime: 1700000000,
+				Describe: map[string]any{"yaml_route": ty, "expand": expand, "config": doc}}
+			if _, err := nfpm.ParseWithEnvMapping(strings.NewReader(doc), func(k string) string { return s.Env[k] }); err != nil {
+				c.Rep.Note("c08 yaml route: generated document does not parse: %v", err)
+				continue
+			}
+			// what the document declares, built through the Go API: the parsed configuration must plan the same
+			// entries with the same types (the type a user wrote is the type that gets packaged)
+			declared := []wire.Content{{Src: filepath.Join(tree.Root, "bin/tool"), Dst: "/usr/bin/plain"}}
+			de := wire.Content{Dst: "/etc/app/entry", Type: ty}
+			switch ty {
+			case "symlink":
+				de.Src = "/usr/bin/plain"
+			case "dir", "ghost":
+			default:
+				de.Src = filepath.Join(tree.Root, "etc/app.conf")
+			}
+			declared = append(declared, de, wire.Content{Src: filepath.Join(tree.Root, "etc/**/*.conf"), Dst: "/etc/many", Type: "config|noreplace"})
+			api := &PkgSpec{Raw: declared, Umask: 0o022, MTime: 1700000000}
+			for _, f := range Formats {
+				pa, ea := RealPlan(api, f)
+				py, ey := RealPlan(s, f)
+				fam.Eval(fmt.Sprintf("yaml-route|%s|%v|%s", ty, expand, f), true)
+				fam.Count("yaml-route")
+				if (ea == nil) != (ey == nil) || (ea == nil && wire.EncContentsOut(pa) != wire.EncContentsOut(py)) {
+					in := s.Input()
+					in["format"] = f
+					c.Rep.Find(report.Finding{Property: "C08", Family: "typing", Shape: f + ":parsed-entries-differ-from-declared",
+						What:  fmt.Sprintf("the entries planned from the parsed document differ from the entries the document declares: declared %v (err %v), parsed %v (err %v)", pa, ea, py, ey),
+						Input: in})
+				}
 				typingCase(c, fam, s, f)
 			}
 		}
